@@ -87,7 +87,35 @@ def rule_precedence(ctx, px):
     pk_calls = [c for c in ast.walk(gs.node) if isinstance(c, ast.Call) and isinstance(c.func, ast.Attribute) and c.func.attr == "get_source"
                 and "_package_loader" in ast.unparse(c.func.value)]
     if not fs_calls or not pk_calls:
-        raise AnalysisError("anchor missing: loader get_source calls in DSDLTemplateLoader.get_source")
+        # the loaders held in one precedence-ordered list that get_source walks: same obligations, read off the list and the loop
+        from checks import _loaders
+        ol = _loaders.ordered_loop(gs)
+        if ol is None:
+            raise AnalysisError("anchor missing: loader get_source calls in DSDLTemplateLoader.get_source")
+        lp, lv, order = ol
+        ok = "_fsloader" in order and "_package_loader" in order and order.index("_fsloader") < order.index("_package_loader")
+        ctx.ob(R, gs.module.rel, f"{gs.short} :: package loader consulted only after the file-system loader is absent", ok,
+               "" if ok else f"the loaders are tried in the order {order}", lp.lineno)
+        tries = [t_ for t_ in lp.body if isinstance(t_, ast.Try)]
+        good = len(tries) == 1 and len(lp.body) - sum(isinstance(x, (ast.Assign, ast.AnnAssign)) for x in lp.body) == 1
+        if good:
+            t_ = tries[0]
+            rets = [r for b_ in t_.body for r in ast.walk(b_) if isinstance(r, ast.Return)]
+            calls = [c for r in rets for c in ast.walk(r) if isinstance(c, ast.Call) and isinstance(c.func, ast.Attribute) and c.func.attr == "get_source"
+                     and isinstance(c.func.value, ast.Name) and c.func.value.id == lv]
+            hs = t_.handlers
+            good = len(rets) == 1 and len(calls) == 1 and len(hs) == 1 and hs[0].type is not None and ast.unparse(hs[0].type).split(".")[-1] == "TemplateNotFound" \
+                and not any(isinstance(x, (ast.Return, ast.Assign, ast.Break)) for b_ in hs[0].body for x in ast.walk(b_)) and not t_.orelse and not t_.finalbody
+        ctx.ob(R, gs.module.rel, f"{gs.short} :: package loader consulted only after the file-system loader failed to find the name", good,
+               "" if good else "the loop over the loaders does not simply return the first loader's answer and move on only when that loader raised TemplateNotFound", lp.lineno)
+        ctx.ob(R, gs.module.rel, f"{gs.short} :: a template found by the file-system loader is returned at once", good, "", lp.lineno)
+        fs_calls = pk_calls = None
+    if fs_calls is not None:
+        _precedence_paths(ctx, R, gs, fs_calls, pk_calls)
+    _precedence_rest(ctx, R, px, gs)
+
+
+def _precedence_paths(ctx, R, gs, fs_calls, pk_calls):
     # Path by path: the package loader is reached only where the file-system loader does not exist, or where the file-system loader's
     # *own* lookup has just failed (the handler of the try around its get_source).  Any other evidence of absence - a cached listing,
     # a suffix test, an exists() probe - is not the authority: the FileSystemLoader resolves names the listing does not contain
@@ -124,6 +152,8 @@ def rule_precedence(ctx, px):
         ok = isinstance(st, ast.Return)
         ctx.ob(R, gs.module.rel, f"{gs.short} :: a user template found is returned at once", ok, "", c.lineno)
 
+
+def _precedence_rest(ctx, R, px, gs):
     tt = px.func(LOADERS, "DSDLTemplateLoader.type_to_template")
     calls = [c for c in ast.walk(tt.node) if isinstance(c, ast.Call) and isinstance(c.func, ast.Attribute) and c.func.attr == "_type_to_template_internal"]
     pm = pyfront.parent_map(tt.node)
@@ -131,14 +161,22 @@ def rule_precedence(ctx, px):
     def which_loader(txt):
         return "fs" if "_fsloader" in txt else ("pkg" if "_package_loader" in txt else "?")
 
-    loop_form = None
+    loop_form, loop_order = None, None
     if len(calls) == 1:
+        from checks import _loaders
         cur = calls[0]
         while id(cur) in pm:
             cur = pm[id(cur)]
             if isinstance(cur, ast.For) and isinstance(cur.iter, (ast.Tuple, ast.List)) and isinstance(cur.target, ast.Name):
                 loop_form = cur
+                loop_order = [which_loader(ast.unparse(e)) for e in cur.iter.elts]
                 break
+            if isinstance(cur, ast.For) and isinstance(cur.target, ast.Name):
+                names = _loaders._list_of_attrs(tt.cls, cur.iter, tt.node)      # the precedence-ordered loader list of the class
+                if names:
+                    loop_form = cur
+                    loop_order = [which_loader(n_) for n_ in names]
+                    break
     if len(calls) == 2:
         info = []
         for c in calls:
@@ -165,7 +203,7 @@ def rule_precedence(ctx, px):
         ctx.ob(R, tt.module.rel, f"{tt.short} :: package listing searched only when the file-system search found nothing", ok,
                "" if ok else f"package search guarded by {pk_terms}", tt.node.lineno)
     elif loop_form is not None:
-        order = [which_loader(ast.unparse(e)) for e in loop_form.iter.elts]
+        order = loop_order
         ok = order == ["fs", "pkg"]
         ctx.ob(R, tt.module.rel, f"{tt.short} :: file-system listing searched first", ok, f"order: {order}", tt.node.lineno)
         # a result ends the loop at once: `if <result> is not None: return <result>` (or break) directly after the search
